@@ -837,6 +837,15 @@ func (e *Eval) compile(node ast.Node) error {
 	case *ast.CallExpression:
 
 		//
+		// A function is called by its name: the name is all we
+		// use of the expression before the "(", so anything
+		// else there would be dropped without being compiled.
+		//
+		if _, ok := node.Function.(*ast.Identifier); !ok {
+			return fmt.Errorf("only a named function can be called, not %s", node.Function.String())
+		}
+
+		//
 		// call to print(1) will have the stack setup as:
 		//
 		//  1
